@@ -72,4 +72,30 @@ def families(tier):
         for size in (0, 1, 3):
             f.add(P + 'new_from_buff/NULL,size=%d' % size, 'h_new_buff_null', size)
         fams.append(f)
+        # stream/descriptor constructors with the read chunk scaled to 4 bytes
+        g = Family('stream_' + cls, 'c01_str.c', units=f.units, stubs=['msgs_stub.c', 'libc_models.c', 'env_io.c'],
+                   defines=f.defines + ['VERIF_STREAMS', 'LIBAST_VERIF_BUFF_INC=4'], unwind=18,
+                   cap=(120, 8) if q else (400, 14), note='BUFF_INC scaled to 4 (hook); payload crosses up to three chunk boundaries')
+        kinds = (0, 1, 3, -1)
+        plens = (0, 1, 3, 4, 5, 8, 9) if q else tuple(range(0, 14))
+        for pl in plens:
+            for k1 in kinds:
+                for k2 in ((0, -1) if q else kinds):
+                    for k3 in ((0,) if q else (0, -1)):
+                        for stale in (0, 1):
+                            g.add(P + 'new_from_fd/plen=%d,sched=%d.%d.%d,stale_errno=%d' % (pl, k1, k2, k3, stale), 'h_from_fd', pl, k1, k2, k3, stale)
+            for nl in [-1] + list(range(0, pl)):
+                g.add(P + 'new_from_fp/plen=%d,nl=%d' % (pl, nl), 'h_from_fp', pl, nl)
+        fams.append(g)
+        h = Family('format_' + cls, 'c01_str.c', units=f.units, stubs=['msgs_stub.c', 'libc_models.c', 'fmt_stub.c'],
+                   defines=f.defines + ['VERIF_FORMAT'], unwind=26, cap=(120, 8) if q else (400, 14),
+                   note='snprintf/vsnprintf replaced by an exact mini-printf (stubs/fmt_stub.c)')
+        for d in (1, 2, 3, 5):
+            h.add(P + 'new_from_num/digits<=%d' % d, 'h_from_num', d)
+        for s_ in states(2, (0, 2)):
+            h.add(P + 'sprintf/%s,fmt=empty' % st(s_), 'h_sprintf', s_[0], s_[1], 0, 0)
+            h.add(P + 'sprintf/%s,fmt=a%%db' % st(s_), 'h_sprintf', s_[0], s_[1], 2, 0)
+            for al in (1, 2, 3):
+                h.add(P + 'sprintf/%s,fmt=%%s,arg=%d' % (st(s_), al), 'h_sprintf', s_[0], s_[1], 1, al)
+        fams.append(h)
     return fams
